@@ -92,7 +92,8 @@ NOTX = {'__not__': 'x'}
 
 def ch_macros(i, st):
     st['macros'] = True
-    return ['[ macros ]', 'mtype P2', 'blen "0.25"'], (None, None)
+    # a macro name ends at one of ' ${}"' or at the end of the line: 'blen-x' and 'b.len' are names of their own, not 'blen' / 'b'
+    return ['[ macros ]', 'mtype P2', 'blen "0.55"', 'blen-x "0.25"', 'b "9"', 'b.len 0.6'], (None, None)
 
 
 def ch_variables(i, st):
@@ -169,8 +170,26 @@ def ch_block_min(i, st):
     return lines, ('block', declared)
 
 
+def ch_block_split(i, st):
+    """A block whose [ atoms ] come in two sections with an interaction section in between; the later interactions refer to the
+    later atoms by number."""
+    name = 'BS%d' % i
+    lines = ['[ moleculetype ]', '%s 1' % name, '[ atoms ]', '1 P1 1 %s BB 1' % name, '2 C1 1 %s SC1 2' % name,
+             '[ bonds ]', '1 2 1 0.2', '[ atoms ]', '3 C2 1 %s SC2 3' % name, '4 C3 1 %s SC3 4' % name,
+             '[ bonds ]', '3 4 1 0.3', '2 3 1 0.4', '[ angles ]', '1 2 4 2 100 10']
+    nodes = [[nm, {'atomname': nm, 'atype': at, 'resname': name, 'resid': 1, 'charge_group': k + 1}]
+             for k, (nm, at) in enumerate((('BB', 'P1'), ('SC1', 'C1'), ('SC2', 'C2'), ('SC3', 'C3')))]
+    declared = {'name': name, 'nrexcl': 1, 'nodes': nodes,
+                'edges': sorted([['BB', 'SC1'], ['SC2', 'SC3'], ['SC1', 'SC2'], ['SC1', 'SC3']]),
+                'interactions': {'bonds': [[['BB', 'SC1'], ['1', '0.2'], {}], [['SC2', 'SC3'], ['1', '0.3'], {}], [['SC1', 'SC2'], ['1', '0.4'], {}]],
+                                 'angles': [[['BB', 'SC1', 'SC3'], ['2', '100', '10'], {}]]},
+                'meta': {}}
+    return lines, ('block', declared)
+
+
 def ch_link_rich(i, st):
-    blen = '$blen' if st.get('macros') else '"0.25"'
+    blen = '$blen-x' if st.get('macros') else '"0.25"'
+    far = '$b.len' if st.get('macros') else '0.6'
     lines = [
         '[ link ]',
         'resname "BLK|OTH"',
@@ -182,7 +201,7 @@ def ch_link_rich(i, st):
         'BB +BB 1 0.35 dist(BB,+BB) {"group": "bb"}',
         'BB SC1 {"order": 1} 1 %s' % blen,
         '#meta {"ifndef": "NOLINK"}',
-        'BB >SC9 1 0.6',
+        'BB >SC9 1 %s' % far,
         '[ !angles ]',
         'BB +BB ++BB 2',
         '[ non-edges ]',
@@ -279,10 +298,10 @@ def ch_modification(i, st):
 FF_CHUNKS = {
     'macros': ch_macros, 'variables': ch_variables, 'citations': ch_citations,
     'block': ch_block_rich, 'block-min': ch_block_min,
-    'link': ch_link_rich, 'link-prefix': ch_link_prefix, 'link-attr': ch_link_attr,
+    'link': ch_link_rich, 'link-prefix': ch_link_prefix, 'link-attr': ch_link_attr, 'block-split': ch_block_split,
     'modification': ch_modification,
 }
-CONTEXT = {'block', 'block-min', 'link', 'link-prefix', 'link-attr', 'modification'}
+CONTEXT = {'block', 'block-min', 'block-split', 'link', 'link-prefix', 'link-attr', 'modification'}
 
 
 def ff_file(seq):
